@@ -175,6 +175,7 @@ def error_rate_case(draw, n_pred=1):
     case["costs"] = draw(cost_spec())
     for j in range(n_pred):
         case["h" if j == 0 else f"h{j + 1}"] = draw(prediction_vector(n))
+    case["preload"] = draw(st.sampled_from([0, 0, 1, 2, 3]))
     return case
 
 
@@ -215,6 +216,7 @@ def loss_case(draw, n_pred=1):
     case["upper_bound"] = draw(st.one_of(st.sampled_from([0.1, 0.0, 1.0]), st.floats(0.0, 5.0, allow_nan=False)))
     for j in range(n_pred):
         case["h" if j == 0 else f"h{j + 1}"] = draw(st.lists(_real, min_size=n, max_size=n))
+    case["preload"] = draw(st.sampled_from([0, 0, 1, 2, 3]))
     return case
 
 
@@ -276,6 +278,26 @@ def rotated(case, k):
             v = list(case[key])
             c[key] = v[k % len(v):] + v[: k % len(v)]
     return c
+
+
+def load_reloaded(m, case, warm=None, only_sf=False):
+    """m.load_data(case data); with case['preload'] = k > 0 the same object has first loaded another dataset of the
+    same size (rows rotated by k) and been used (``warm(m)``): nothing derived from the earlier data may survive."""
+    def data(c):
+        X, y, kw = build_data(c)
+        if only_sf:
+            kw = {"sensitive_features": kw["sensitive_features"]}
+        return X, y, kw
+
+    k = case.get("preload", 0)
+    if k:
+        X0, y0, kw0 = data(rotated(case, k))
+        m.load_data(X0, y0, **kw0)
+        if warm is not None:
+            warm(m)
+    X, y, kw = data(case)
+    m.load_data(X, y, **kw)
+    return m
 
 
 def load_parity(case):
